@@ -173,7 +173,9 @@ func (w *c09world) rawConn(ps, how string) string {
 	return "table=" + w.rawTable(p)
 }
 
-const c09events = "gxbcpqrt"
+// u / v: the peer goes silent INSIDE a frame (after the header and ten body bytes / after two header bytes): the read
+// time-out is what ends the loop, as for t (round 7, seeded C09r7-B)
+const c09events = "gxbcpqrtuv"
 
 func (w *c09world) rawEv(ps, ks, evs string) string {
 	p, err1 := strconv.Atoi(ps)
@@ -195,7 +197,7 @@ func (w *c09world) rawEv(ps, ks, evs string) string {
 	if raw == nil {
 		return "bad-op"
 	}
-	if strings.Contains(evs, "t") {
+	if strings.ContainsAny(evs, "tuv") {
 		// every idle connection of the survivor runs into the (scaled) read time-out
 		total := w.connCount(w.s2.ServerIdentity.GetID())
 		w.vmu.Lock()
@@ -265,6 +267,14 @@ func (w *c09world) rawEv(ps, ks, evs string) string {
 			raw.sock.SetLinger(0)
 			raw.sock.Close()
 		case 't':
+			patience = c09waitSilent
+		case 'u':
+			hdr := make([]byte, 4)
+			binary.BigEndian.PutUint32(hdr, 100)
+			raw.sock.Write(append(hdr, make([]byte, 10)...))
+			patience = c09waitSilent
+		case 'v':
+			raw.sock.Write([]byte{0, 0})
 			patience = c09waitSilent
 		}
 		ended, endEv = true, e
